@@ -527,7 +527,31 @@ func offsRules(c *core.Ctx) {
 	k, isK := rootCall.Call.Args[2].(*ssa.Const)
 	c.Check(isK && k.Value != nil && k.Value.ExactString() == "0", "offs-term", "hseq.New#root-call", rootCall.Pos(), "unfold(type, seq, 0)", "the root call passes %v as offset, expected constant 0", rootCall.Call.Args[2])
 
-	// writers census
+	// writers census; a helper that builds entries and is used only by plain calls from the unfolding function
+	// (a newType(fv, ft, root, id) constructor) is analysed as part of it by the term rules below
+	writesSensitive := func(fn *ssa.Function) bool {
+		for _, b := range fn.Blocks {
+			for _, in := range b.Instrs {
+				fa, ok := in.(*ssa.FieldAddr)
+				if !ok {
+					continue
+				}
+				fname := fieldNameOf(fa)
+				if (isHseqType(fa.X.Type()) && (fname == "RootOffs" || fname == "StructField")) || (isReflectStructField(fa.X.Type()) && fname == "Offset") {
+					for _, r := range *fa.Referrers() {
+						if st, ok := r.(*ssa.Store); ok && st.Addr == ssa.Value(fa) {
+							return true
+						}
+					}
+				}
+			}
+		}
+		return false
+	}
+	writers := map[*ssa.Function]bool{uf: true}
+	for _, h := range coveredHelpers(c, writers, writesSensitive) {
+		writers[h] = true
+	}
 	nLit, stray := 0, 0
 	for _, pkg := range c.W.AllLogical() {
 		for _, fn := range c.W.SourceFuncs(pkg) {
@@ -552,7 +576,7 @@ func offsRules(c *core.Ctx) {
 						continue
 					}
 					_, isAlloc := fa.X.(*ssa.Alloc)
-					if fn == uf && isAlloc {
+					if writers[fn] && isAlloc {
 						nLit++
 						continue
 					}
